@@ -339,6 +339,18 @@ class C09(Property):
 
     def _track(self, spec, ctx):
         etc, geom, grid = T.build_time_course(spec)
+        n_all = sum(len(f) for f in spec["frames"])
+        if grid is None and spec["dim"] >= 2 and not spec.get("far") and n_all % 3 == 1:
+            # the metric may be taken from any grid: a radially symmetric or cylindrical one of the same dimension (only completion and
+            # the number of tracked droplets are judged then)
+            from pde import CylindricalSymGrid, PolarSymGrid, SphericalSymGrid
+
+            L = 4.0 * spec["site_spacing"]
+            if spec["dim"] == 2:
+                grid = PolarSymGrid(L, 6)
+            else:
+                grid = [SphericalSymGrid(L, 6), CylindricalSymGrid(L, (-L, 2 * L), (4, 9)), CylindricalSymGrid(L, (-L, 2 * L), (4, 9), periodic_z=True)][n_all % 9 // 3]
+            ctx.cls("metric-of:" + type(grid).__name__)
         tracks = T.run_tracker(spec, etc, grid)
         ctx.cls("track", spec["method"], "grid" if grid is not None else "nogrid")
         ctx.nontrivial = sum(1 for f in spec["frames"] if f) >= 2
